@@ -477,7 +477,7 @@ func streamC08(c *Ctx) {
 	dr := StartDriver(c.DriverBin)
 	defer dr.Close()
 	replayKnownFindings(c, dr)
-	nHist := c.N(50, 1000)
+	nHist := c.N(160, 2000)
 	dm := Domain{IntsWithin2p53: true, NoNegTimes: true}
 	for _, be := range backendsAll {
 		im := NewImpl(be, c.Scratch)
@@ -559,7 +559,7 @@ func streamC09(c *Ctx) {
 		"deletes of absent ids and failed operations included; non-trivial = distinct query group whose FindAll is non-empty"
 	dr := StartDriver(c.DriverBin)
 	defer dr.Close()
-	nHist := c.N(40, 800)
+	nHist := c.N(120, 1500)
 	dm := Domain{IntsWithin2p53: true, NoNegTimes: true}
 	for _, be := range backendsAll {
 		im := NewImpl(be, c.Scratch)
